@@ -2,7 +2,9 @@
 """Rewrites the obligation counts of the table in DESIGN.md section 0.1 from evidence/*.json."""
 import json, os, re
 V = os.path.dirname(os.path.dirname(os.path.abspath(__file__)))
-s = open(os.path.join(V, "DESIGN.md")).read()
+full = open(os.path.join(V, "DESIGN.md")).read()
+cut = full.index("### 0.2 ")  # only the table of section 0.1
+s, rest = full[:cut], full[cut:]
 for i in range(1, 21):
     pid = "C%02d" % i
     try:
@@ -10,4 +12,4 @@ for i in range(1, 21):
     except Exception:
         continue
     s = re.sub(r"^\| %s \| \d+ \|" % pid, "| %s | %d |" % (pid, n), s, flags=re.M)
-open(os.path.join(V, "DESIGN.md"), "w").write(s)
+open(os.path.join(V, "DESIGN.md"), "w").write(s + rest)
